@@ -111,6 +111,11 @@ func C04Inputs(seeds [][]byte, cbor bool) []C04Case {
 			for _, m := range TypeMutants(s) {
 				add("item replaced by an item of another type (CRCs re-computed)", m)
 			}
+			if len(s) <= 96 {
+				for _, m := range SmallValueMutants(s) {
+					add("a field set to a small value 0..40 (enumerations, type codes, flags)", m)
+				}
+			}
 		}
 		for _, m := range Truncations(s) {
 			add("truncation", m)
